@@ -15,6 +15,7 @@ type WebSocketPool struct {
 	maxIdle     int
 	maxActive   int
 	idleTimeout time.Duration
+	closed      bool // set by Shutdown: nothing is pooled any more
 }
 
 // connPool holds connections for a specific backend
@@ -24,6 +25,7 @@ type connPool struct {
 	active      int
 	mu          sync.Mutex
 	idleTimeout time.Duration
+	closed      bool // set by Shutdown while holding mu
 }
 
 // pooledConn wraps a connection with metadata
@@ -86,6 +88,12 @@ func (p *WebSocketPool) Put(backend string, conn net.Conn) bool {
 	}
 
 	p.mu.Lock()
+	if p.closed {
+		// the pool has been shut down: nothing may be retained
+		p.mu.Unlock()
+		_ = conn.Close()
+		return false
+	}
 	pool, exists := p.pools[backend]
 	if !exists {
 		pool = &connPool{
@@ -102,6 +110,12 @@ func (p *WebSocketPool) Put(backend string, conn net.Conn) bool {
 
 	if pool.active > 0 {
 		pool.active--
+	}
+
+	// Shutdown ran between the lookup above and this point
+	if pool.closed {
+		_ = conn.Close()
+		return false
 	}
 
 	// Don't exceed max idle connections
@@ -235,6 +249,7 @@ func (p *WebSocketPool) Shutdown() {
 			_ = pc.conn.Close() // Best effort close, ignore error
 		}
 		pool.idle = nil
+		pool.closed = true
 		pool.mu.Unlock()
 
 		logging.L().Info().
@@ -243,4 +258,5 @@ func (p *WebSocketPool) Shutdown() {
 	}
 
 	p.pools = make(map[string]*connPool)
+	p.closed = true
 }
